@@ -3,6 +3,7 @@ import MC.Spec.Variant
 import MC.Model.Preproc
 import MC.Model.Prefs
 import MC.Model.Nav
+import MC.Spec.Tts
 open Lean
 
 namespace MC.Driver
@@ -130,7 +131,15 @@ def handleNav (op : String) (req : Json) : Option Json :=
     some (navOutcome (MC.Nav.doCommand (getStr req "root") (fun i => ids.contains i) (getStr req "cmd") tries s))
   | _ => none
 
-def handlers : List (String → Json → Option Json) := [handleVariant, handlePreproc, handlePrefs, handleNav]
+/-- C13 ops -/
+def handleTts (op : String) (_req : Json) : Option Json :=
+  match op with
+  | "c13_bad_pairs" => some <| okJ <| Json.arr <| (MC.Spec.Tts.badPairs.map fun (e, c) => Json.arr #[toJson e, toJson c]).toArray
+  | "c13_templates" => some <| okJ <| Json.arr <| (MC.Gen.Tts.templates.map fun (e, c, s, t) =>
+      Json.arr #[toJson e, toJson c, toJson (ofCps s), toJson (ofCps t)]).toArray
+  | _ => none
+
+def handlers : List (String → Json → Option Json) := [handleVariant, handlePreproc, handlePrefs, handleNav, handleTts]
 
 def handle (req : Json) : Json :=
   let op := getStr req "op"
